@@ -411,7 +411,7 @@ def _r5(ctx, P):
         fx = FlowCx(P, f)
         ok = False
         for bi, tm in f.calls():
-            if short_id(callee_name(tm)) == "VersionChain::visible_to":
+            if short_id(callee_name(tm)) in ("VersionChain::visible_to", "VersionIndex::visible_to"):
                 ok = "param:3" in fx.tags(tm["args"][1]) and "param:4" in fx.tags(tm["args"][2])
         ctx.ob("R5", "LpgStore::%s" % acc, ok,
                what="LpgStore::%s must select the version with VersionChain::visible_to(epoch, tx_id) of its own parameters" % acc, where=f.loc())
